@@ -27,6 +27,8 @@ TEXT = {
          "row generator gives every same-typed pair of columns different values so that a transposed bind cannot hide"),
  "C14": ("Fault enumeration inside each mutating call: for sampled (pre-state, call) pairs on an on-disk library the call is re-executed from the same restored disk image once per fault position - every SQL statement failing with BUSY/ERROR/READONLY (exhaustive), every VFS call of the call addressed as (method, file, ordinal), every VM tick (cancellation), seeded SQLite allocation failures - and the full public observation afterwards must equal the pre-state (or, for real-path faults that SQLite reports after its commit point, exactly the fault-free post-state); errors must surface as std::exception and the call must succeed when retried.",
          "inner loop exhaustive for F1 and within caps (256) for F2/F3, outer loop sampled; F1 is a stub-level fault at the statement boundary, F2-F4 go through SQLite's real pager/journal error paths on the simulated disk"),
+ "C15": ("Hostile-caller simulated histories on every supported schema with the library built with AddressSanitizer, UndefinedBehaviorSanitizer and libstdc++ assertions: ordinary operations are interleaved with out-of-range cue/loop indices, over-long cue lists, NUL / invalid-UTF-8 / 300-byte labels, waveforms without sample rate or count, ids of nonexistent or removed entities, create_*_after with crates from elsewhere in the tree, odd crate names and every member function of stale track and crate handles. Each call must return or throw a std::exception; any sanitizer report, signal, assertion, watchdog (VM ticks, inflate progress, wall clock) or foreign exception is a violation attributed to the flushed run; stale handles must keep their id and report is_valid() == false.",
+         "finite doubles only (as the statement quantifies); C++ operator new failure is not injected"),
  "C16": ("In every state reached by the workloads a monitor brackets the complete block of observing calls (every getter, snapshot(), listings, lookups) with SimDisk write/truncate/delete counters for non-temporary files, sqlite3_total_changes of the library's connections and the image hash; the block is repeated with the simulated clock moved and must give identical answers.",
          "observation right after an injected fault is exempt (hot-journal recovery legitimately writes)"),
 }
